@@ -227,12 +227,24 @@ def check(rep, tier, seed):
     if not seen:
         rep.add(Query("locate the signing path of the handler", "inconclusive", "no relay path with compute_signature", 0, "mirsym"))
     # sites 2..4: the agent's own host calls
+    known_sites = []
     for (ty, fn) in (("WireServerClient", "get_goalstate"), ("WireServerClient", "get_shared_config"), ("ImdsClient", "get_imds_instance_info")):
         try:
-            w = ctx.method(ty, fn)
+            known_sites.append((ty, fn, ctx.method(ty, fn)))
         except Inconclusive as e:
             rep.add(Query("%s::%s located" % (ty, fn), "inconclusive", str(e), 0, "mirsym"))
+    # ... and every other function that reads the key (found through the call graph): a signing site added later is a site
+    import callgraph as _cgm
+    getters = ("get_current_key_value", "get_current_key_guid", "get_current_key_guid_and_value", "get_key")
+    have = {w for _t, _f, w in known_sites}
+    for pth, callees in sorted(hm.cg.callees.items()):
+        base = pth.split("::{closure")[0]
+        if base in have or "key_keeper_wrapper" in pth or "proxy_server" in pth or "::tests::" in pth or "key_keeper::" in pth:
             continue
+        if any(_cgm.last_seg(c) in getters for c in callees) and (base + "::{closure#0}") in ctx.idx.files:
+            have.add(base)
+            known_sites.append((base.split("::")[-2] if "::" in base else "", base.split("::")[-1], base))
+    for (ty, fn, w) in known_sites:
         eng = ctx.engine()
         only_getters = re.compile(r"KeyKeeperSharedState::get_current_key")
         base_auto = make_auto_inline(hm.cg, keep10)
@@ -242,14 +254,16 @@ def check(rep, tier, seed):
         done = False
         shapes = set()
         for r in paths:
-            gets = [e for e in r.events if e.kind == "call" and re.search(r"hyper_client::get$|(^|::)get$", e.callee) and len(e.rargs) >= 4]
+            gets = [(e, 2, 3) for e in r.events if e.kind == "call" and re.search(r"hyper_client::get$|(^|::)get$", e.callee) and len(e.rargs) >= 4]
+            gets += [(e, 4, 5) for e in r.events if e.kind == "call" and re.search(r"(^|::)build_request$", e.callee) and len(e.rargs) >= 6]
+            gets.sort(key=lambda t: r.events.index(t[0]))
             # EVERY signed request the function can send (a retry, a second call ...), not only the first one
-            for k, g in enumerate(gets):
-                ev_g = await_source(r.events, g.rargs[2])
-                ev_v = await_source(r.events, g.rargs[3])
+            for k, (g, ig, iv) in enumerate(gets):
+                ev_g = await_source(r.events, g.rargs[ig])
+                ev_v = await_source(r.events, g.rargs[iv])
                 if ev_g is None and ev_v is None:
                     continue          # a request on which no key is latched: nothing is signed
-                lit_none = [a for a in (g.rargs[2], g.rargs[3]) if isinstance(origin(a), Agg) and origin(a).variant == "None"]
+                lit_none = [a for a in (g.rargs[ig], g.rargs[iv]) if isinstance(origin(a), Agg) and origin(a).variant == "None"]
                 if lit_none:
                     continue          # id or secret is the literal None on this path: build_request signs only when both are present
                 shape = (k, g.site, "same" if ev_g is ev_v else "two", None if ev_g is None else ev_g.site, None if ev_v is None else ev_v.site)
@@ -262,7 +276,10 @@ def check(rep, tier, seed):
                     c["first_is_value"] = r.events.index(ev_v) < r.events.index(ev_g)
                     cex.append(c)
         if not done:
-            rep.add(Query("%s::%s: signing call located" % (ty, fn), "inconclusive", "no hyper_client::get call with key arguments found", 0, "mirsym"))
+            if (ty, fn) in (("WireServerClient", "get_goalstate"), ("WireServerClient", "get_shared_config"), ("ImdsClient", "get_imds_instance_info")):
+                rep.add(Query("%s::%s: signing call located" % (ty, fn), "inconclusive", "no hyper_client::get call with key arguments found", 0, "mirsym"))
+            else:
+                rep.add(Query("%s::%s reads the key keeper's key state but sends no signed request" % (ty, fn), "holds", "found through the call graph", 0, "mirsym", key="C10.site-no-signing"))
     # replay the schedules on the real actor
     if cex:
         import replay
